@@ -142,6 +142,7 @@ template <class T> std::string dump(const std::vector<T> &v) {
   return r + "]}";
 }
 
+enum Code : int {};   // a declared scalar type whose tree type is int (C10)
 }  // namespace vp
 
 // ---- the recording tree (ROOT's TTree as far as emitted code uses it)
